@@ -39,6 +39,22 @@ def replay_for(pid, v, work, log):
             res.update(reproduced=True, path=s, what="%s: %s" % (os.path.basename(s), (p.stdout + p.stderr).strip()[-300:]),
                        tags=[os.path.basename(s)])
             return res
+    gen = os.path.join(ov.VERIF, "scenarios", "run.py")
+    if os.path.exists(gen):
+        ran += 1
+        try:
+            p = subprocess.run(["python3", gen, pid, binary], capture_output=True, text=True, timeout=1500)
+            log("    scenario generator run.py %s exit=%d %s" % (pid, p.returncode, (p.stdout.strip().split("\n") or [""])[0][:160]))
+            if p.returncode != 0:
+                d = os.path.join(ov.VERIF, "replays", pid)
+                os.makedirs(d, exist_ok=True)
+                path = os.path.join(d, "scenario_%s.txt" % pid)
+                with open(path, "w") as f:
+                    f.write("python3 /verif/scenarios/run.py %s <binary built from /repo>\n\n%s" % (pid, p.stdout[-4000:]))
+                res.update(reproduced=True, path=path, what=(p.stdout.strip().split("\n") or [""])[0][:300], tags=["scenario"])
+                return res
+        except subprocess.TimeoutExpired:
+            pass
     cands = "; ".join(c.get("what", "") for c in v.get("candidates", [])[:3])
     res["why"] = "%d scenario script(s) ran, none violated %s through the real binary; candidate: %s" % (ran, pid, cands[:300])
     return res
